@@ -61,6 +61,9 @@ def make_file(r, n):
                 v = "%s%d_%d" % (k[:2], i, q)
                 if fmt == "gff3" and r.random() < 0.3:
                     v += r.choice([";", ",", "=", "%", " x", "\té", "&"])
+                elif fmt != "gff3" and quoted and r.random() < 0.3:
+                    # GTF has no escaping: characters that GFF3 would percent-encode are stored and printed as they are
+                    v += r.choice(["=", "%", "&", "%25", "%2C", " x"])
                 vals.append(v)
             attrs.append((k, vals))
         s.attrs = attrs
